@@ -1009,7 +1009,7 @@ def values_stage(chk, M, specs):
                 if label == "none" and not (out[0] == "ok" and out[1] == canon(m.serialize())):
                     chk.monitor_failure("replace_law", {"law": "identity", "origin": origin},
                                         "replace() without arguments does not return an equal model", case)
-                if label == "good" and cls != "TlTrack" or label == "good" and origin == "constructed":
+                if label == "good":
                     (k, v), = upd.items()
                     want = canon({**m.serialize(), k: v})
                     if out[0] == "ok":
@@ -1021,7 +1021,7 @@ def values_stage(chk, M, specs):
                         if got != want:
                             chk.monitor_failure("replace_law", {"law": "set_get", "origin": origin},
                                                 "replace(field=v) does not return the model with exactly that field changed", case)
-                    elif origin == "constructed":
+                    else:
                         chk.monitor_failure("replace_law", {"law": "accepts_valid", "origin": origin},
                                             "replace() rejected a valid field value", case)
                 if label in ("bad", "unknown") and out[0] == "ok" and not (cls == "TlTrack" and label == "unknown"):
